@@ -36,10 +36,11 @@ structure InsCtx where
   events : List Event := []
   deriving Inhabited
 
-/-- stable insertion sort by key (what `sort_by_key` guarantees) -/
+/-- stable insertion sort by key (what `sort_by_key` guarantees): elements are inserted from the
+right end, each *before* the elements of equal key already placed (which were to its right) -/
 def insertByKey {α : Type} (key : α → Nat) (a : α) : List α → List α
   | [] => [a]
-  | b :: bs => if key a < key b then a :: b :: bs else b :: insertByKey key a bs
+  | b :: bs => if key a ≤ key b then a :: b :: bs else b :: insertByKey key a bs
 
 def sortByKey {α : Type} (key : α → Nat) (l : List α) : List α :=
   l.foldr (fun a acc => insertByKey key a acc) []
